@@ -138,3 +138,97 @@ Fixpoint times_mono (last : N) (h : list iter) : bool :=
   end.
 
 Definition wf_history (h : list iter) : bool := times_mono 0 h.
+
+(* ---- "... as the network LAST advertised it" (clause added in round 6) ------------------------------------
+
+   host / port of a ServiceResolved are those of the SRV record of the instance that was received
+   most recently among those that are still current (live, not superseded by a later delivery of
+   the same record, not displaced by a later cache-flush delivery); its TXT properties are those of
+   the most recently received current TXT record (none current: no properties).  "Received" refers
+   to the order of the deliveries: iteration, datagram, position in the message.
+   Two things are not observable and make the clause a set of admissible answers:
+   - the deliveries of the current iteration that precede the event: SOME prefix of them (the
+     same for SRV and TXT);
+   - whether a record of a response that is "not for us" (its answer section has PTR records, none
+     of a browsed name) was stored: such a record is stored only when its owner already has
+     records of that kind.  So every current not-for-us delivery after the last current for-us
+     delivery is admissible too, and when no for-us delivery is current "no TXT" is admissible;
+   - which records a stop_browse dropped (prev_after below). *)
+Definition fdlv := (bool * dlv)%type.      (* for-us flag, delivery *)
+
+Fixpoint last_cands (sel : dlv -> bool) (now : N) (l : list fdlv) : list dlv * bool :=
+  match l with
+  | [] => ([], false)
+  | (fu, d) :: rest =>
+    let '(cs, closed) := last_cands sel now rest in
+    if closed then (cs, true)
+    else if sel d && live_dlv d now
+            && negb (existsb (fun d' => same_key d (snd d') || displaces (snd d') d) rest)
+         then (d :: cs, fu) else (cs, false)
+  end.
+
+Definition sel_srv_of (inst : bytes) (d : dlv) : bool :=
+  (r_type (dl_rr d) =? TY_SRV) && beq (r_name (dl_rr d)) inst.
+
+Definition sel_txt_of (inst : bytes) (d : dlv) : bool :=
+  (r_type (dl_rr d) =? TY_TXT) && beq (r_name (dl_rr d)) inst.
+
+Fixpoint inits {A} (l : list A) : list (list A) :=
+  match l with
+  | [] => [[]]
+  | x :: t => [] :: map (cons x) (inits t)
+  end.
+
+Definition view_last_ok (view : list fdlv) (now : N) (r : resolved) : bool :=
+  existsb (fun d => beq (rr_host (dl_rr d)) (rs_host r) && (rr_port (dl_rr d) =? rs_port r))
+          (fst (last_cands (sel_srv_of (rs_name r)) now view))
+  && (let '(cs, closed) := last_cands (sel_txt_of (rs_name r)) now view in
+      existsb (fun d => props_beq (txt_props (rr_text (dl_rr d))) (rs_txt r)) cs
+      || (negb closed && is_nil (rs_txt r))).
+
+Definition resolved_last_ok (prev cur : list fdlv) (now : N) (r : resolved) : bool :=
+  existsb (fun pre => view_last_ok (prev ++ pre) now r) (inits cur).
+
+Definition out_last_ok (prev cur : list fdlv) (now : N) (x : out) : bool :=
+  match x with
+  | OEvt _ (EResolved r) => resolved_last_ok prev cur now r
+  | _ => true
+  end.
+
+Definition dgram_fdlvs (ifs : iftab) (q : list (bytes * N)) (now : N) (d : dgram) : list fdlv :=
+  match accepted_msg ifs d with
+  | Some m => map (fun r => (for_us q (m_answers m), mkDlv now (d_if d) r)) (msg_records m)
+  | None => []
+  end.
+
+Definition iter_fdlvs (ifs : iftab) (q : list (bytes * N)) (it : iter) : list fdlv :=
+  flat_map (dgram_fdlvs ifs q (i_now it)) (deliveries_in_order (i_dgrams it)).
+
+(* the browsed names after the calls of an iteration (the datagrams come first) *)
+Definition q_after (q : list (bytes * N)) (calls : list call) : list (bytes * N) :=
+  fold_left (fun q0 cl => match cl with
+                          | CBrowse ty ch => q_set ty ch q0
+                          | CStop ty => q_remove ty q0
+                          | _ => q0
+                          end) calls q.
+
+(* stop_browse drops the SRV / TXT / address records of the instances of the stopped name; which
+   ones is not tracked here: after a stop_browse every earlier delivery counts as possibly dropped
+   (like a record of a not-for-us response) *)
+Definition prev_after (prev cur : list fdlv) (calls : list call) : list fdlv :=
+  if existsb (fun cl => match cl with CStop _ => true | _ => false end) calls
+  then map (fun x => (false, snd x)) (prev ++ cur) else prev ++ cur.
+
+Fixpoint chk_C03_last_from (ifs : iftab) (q : list (bytes * N)) (prev : list fdlv) (h : list iter)
+    (tr : list (list out)) : bool :=
+  match h, tr with
+  | [], [] => true
+  | it :: h', o :: tr' =>
+    let cur := iter_fdlvs ifs q it in
+    forallb (out_last_ok prev cur (i_now it)) o
+    && chk_C03_last_from ifs (q_after q (i_calls it)) (prev_after prev cur (i_calls it)) h' tr'
+  | _, _ => false
+  end.
+
+Definition chk_C03_last (ifs : iftab) (h : list iter) (tr : list (list out)) : bool :=
+  chk_C03_last_from ifs [] [] h tr.
